@@ -402,6 +402,11 @@ func newEnv(c *suiteCtx, cfg proxyCfg) (*testEnv, error) {
 	logger.SetErrOutput(io.Discard)
 	validator := NewValidator(o.EmailDomains, o.AuthenticatedEmailsFile)
 	p, err := NewOAuthProxy(o, validator)
+	for attempt := 0; err != nil && attempt < 5 && cfg.ForceHTTPS && cfg.SecureBindAddress == "" && strings.Contains(err.Error(), "listen"); attempt++ {
+		// NewOAuthProxy really listens on the TLS address: another process may have taken the probed port in between
+		o.Server.SecureBindAddress = fmt.Sprintf("127.0.0.1:%d", freePort())
+		p, err = NewOAuthProxy(o, validator)
+	}
 	if err != nil {
 		e.close()
 		return nil, fmt.Errorf("new proxy: %w", err)
